@@ -914,7 +914,23 @@ fn run(cfg: &Cfg) -> Report {
     rep
 }
 
+/// Entry point shared by the libFuzzer target `parse` and the replay of its artifacts:
+/// bytes 0..8 are the whitespace choices, every further byte selects one vocabulary token.
+pub fn fuzz_bytes(data: &[u8], st: &mut Stats) -> CheckResult {
+    if data.len() < 9 {
+        return Ok(());
+    }
+    let glue = u64::from_le_bytes(data[..8].try_into().unwrap());
+    let vocab = soup_vocab();
+    let toks: Vec<Tok> = data[8..].iter().take(40).map(|b| vocab[*b as usize % vocab.len()].clone()).collect();
+    check_tokens(&toks, glue, "libfuzzer", st)
+}
+
 fn replay(sub: &str, case: &J) -> CheckResult {
+    if let Some(a) = case["fuzz_bytes"].as_array() {
+        let b: Vec<u8> = a.iter().map(|b| b.as_u64().unwrap_or(0) as u8).collect();
+        return fuzz_bytes(&b, &mut Stats::default());
+    }
     if sub == "documented-example" {
         let text = case["text"].as_str().unwrap_or("");
         let tree = case["tree"].as_str().unwrap_or("");
